@@ -579,10 +579,22 @@ impl Engine for CliSim {
                         continue;
                     }
                     if !content_recorded(&loader, &ops, ws_name, p, b, &mut cache) {
+                        // Known finding (known_findings.jsonl): a workspace whose
+                        // working-copy commit was removed from the view (op restore /
+                        // undo from another workspace reaching back before it was
+                        // added) is not snapshotted ("No working copy"); a command
+                        // that then gives it a working-copy commit checks that
+                        // commit out over the stale tree state and deletes or
+                        // overwrites edits made since the last snapshot.
+                        let (inv, key) = if !has_wc_commit_before && ok {
+                            ("content_lost_in_workspace_without_working_copy_commit", "clisim:c40:workspace_without_wc_commit_checked_out_without_snapshot")
+                        } else {
+                            ("working_copy_content_lost", "clisim:working_copy_content_lost")
+                        };
                         out.violate(
                             "C40",
-                            "working_copy_content_lost",
-                            "clisim:working_copy_content_lost".into(),
+                            inv,
+                            key.into(),
                             format!(
                                 "file {ws_name}:{p} ({:?}) was on disk when `jj {}` started ({}); afterwards it is not in any working-copy commit of that workspace recorded in the operation log{}",
                                 String::from_utf8_lossy(b).trim(),
